@@ -458,6 +458,102 @@ func (r *nodeRun) indexFlush(w *kvwrap.World) {
 	r.snapshot("after-IndexFlush")
 }
 
+// flushJobReal: the flush job of the ENGINE itself -- Database.Flush hands a request to the data flush checker, one of
+// its workers runs doFlush / flushShard (tsdb/data_flush_checker.go: metadata, wait, shard index, wait, family data).
+// Nothing of the order is the driver's: the stages are recognised by the store of every manifest commit the kv seam
+// reports (meta store, index store, data segment store), on the worker's goroutine, and emitted as the events of the
+// specification; the index commits and the data commit are kill points as in the transcribed job.
+func (r *nodeRun) flushJobReal(w *kvwrap.World) {
+	sep := string(filepath.Separator)
+	serID := -1
+	for _, st := range kv.GetStoreManager().GetStores() {
+		if strings.HasPrefix(st.Name(), filepath.Join(r.n.dir, "data")) && strings.HasSuffix(st.Name(), sep+"index") {
+			if f := st.GetFamily("series"); f != nil {
+				serID = int(f.ID())
+			}
+			r.idxStore = st.Name()
+		}
+	}
+	meta, idx, committed := false, false, false
+	stage := func(to string) {
+		// the stages before `to` that left no trace in the kv seam had nothing to commit
+		if !meta {
+			meta = true
+			r.rec.Emit("MetaFlush", trace.F{})
+		}
+		if to == "meta" {
+			return
+		}
+		if !idx {
+			idx = true
+			r.rec.Emit("IdxPrepare", trace.F{})
+		}
+		if to == "idx" {
+			return
+		}
+		r.rec.Emit("IdxDone", trace.F{})
+	}
+	idxDone := false
+	w.AfterOpF = func(_ int, ev string, f trace.F) {
+		if ev != "ManifestAppend" {
+			return
+		}
+		store, _ := f["store"].(string)
+		switch {
+		case strings.HasSuffix(store, sep+"meta"):
+			if idx {
+				r.rec.Emit("Unexpected", trace.F{"what": "metadata commit after the index flush began", "store": store})
+			}
+			stage("meta")
+		case store == r.idxStore:
+			if idxDone {
+				r.rec.Emit("Unexpected", trace.F{"what": "index commit after the data commit", "store": store})
+			}
+			stage("idx")
+			rc, _ := f["rec"].(trace.F)
+			fam, _ := rc["fam"].(int)
+			part := "index"
+			if fam == serID {
+				part = "series"
+			}
+			r.rec.Emit("IdxCommit", trace.F{"part": part})
+			r.snapshot("inside-IndexFlush-after-" + part)
+		case strings.Contains(store, sep+"segment"+sep):
+			if !idxDone {
+				idxDone = true
+				stage("data")
+			}
+			if !committed {
+				committed = true
+				r.rec.Emit("FamilyCommit", trace.F{})
+				r.snapshot("between-commit-and-ack")
+			}
+		}
+	}
+	if err := r.n.db.Flush(); err != nil {
+		r.rec.Emit("Error", trace.F{"op": "Database.Flush", "err": err.Error()})
+	}
+	deadline := time.Now().Add(60 * time.Second)
+	for !tsdb.VerifFlushIdle(r.n.db) && time.Now().Before(deadline) {
+		time.Sleep(time.Millisecond)
+	}
+	w.AfterOpF = nil
+	if !tsdb.VerifFlushIdle(r.n.db) {
+		r.rec.Emit("Unexpected", trace.F{"what": "the flush job of the engine did not finish"})
+		return
+	}
+	if !idxDone {
+		stage("data")
+	}
+	if committed {
+		r.rec.Emit("FamilyAck", trace.F{})
+	} else {
+		r.rec.Emit("Note", trace.F{"what": "family flush without data"})
+	}
+	r.emitProj()
+	r.snapshot("after-FlushJob")
+}
+
 // familyFlush: the manifest commit of the data segment store is observed through the kv seam
 // (event FamilyCommit + image: the kill point between commit and acknowledgement)
 func (r *nodeRun) familyFlush(w *kvwrap.World) {
@@ -634,6 +730,12 @@ func nodeHistory(rec *trace.Recorder, dir string, rng *rand.Rand, h int, image, 
 						run.replicaStep()
 					}
 				}
+			}
+			if h != 0 && h < 1000 && rng.Intn(3) == 0 {
+				// the job as the engine runs it (nothing races inside it here)
+				run.flushJobReal(w)
+				script = append(script, "flushjob(engine)")
+				break
 			}
 			racing := rng.Intn(2) == 0 && !(h == 0 || h >= 1000)
 			run.metaFlush()
